@@ -61,6 +61,10 @@ def withLoaded (st : St) (k : WS → St × String) : St × String :=
   | .err => (st, "E_LOAD")
   | .panic => (st, "PANIC")
 
+/-- the reference codec (C20) accepts the position: the getters cache the sheet first and
+then reject a position outside the grid -/
+def inGrid (c r : Nat) : Bool := 1 ≤ c && c ≤ Facts.MaxColumns && 1 ≤ r && r ≤ Facts.TotalRows
+
 def step (st : St) (w : List String) : St × String :=
   match w with
   | "sheet" :: rest =>
@@ -78,15 +82,19 @@ def step (st : St) (w : List String) : St × String :=
     | none => (st, "bad-op")
   | ["get", c, r] =>
     match c.toNat?, r.toNat? with
-    | some c, some r => withLoaded st fun w => (⟨st.raw, w⟩, "ok " ++ hexS (getCellValue w.sheet c r))
+    | some c, some r => withLoaded st fun w =>
+      (⟨st.raw, w⟩, if inGrid c r then "ok " ++ hexS (getCellValue w.sheet c r) else "E_COORDS")
     | _, _ => (st, "bad-op")
   | ["vis", r] =>
     match r.toNat? with
-    | some r => withLoaded st fun w => (⟨st.raw, w⟩, if rowVisible w.sheet r then "ok 1" else "ok 0")
+    | some r =>
+      if r = 0 then (st, "E_ROWNUM") else
+      withLoaded st fun w => (⟨st.raw, w⟩, if rowVisible w.sheet r then "ok 1" else "ok 0")
     | none => (st, "bad-op")
   | ["style", c, r] =>
     match c.toNat?, r.toNat? with
-    | some c, some r => withLoaded st fun w => (⟨st.raw, ⟨getCellStyleState w.sheet c r, true⟩⟩, "ok")
+    | some c, some r => withLoaded st fun w =>
+      if inGrid c r then (⟨st.raw, ⟨getCellStyleState w.sheet c r, true⟩⟩, "ok") else (⟨st.raw, w⟩, "E_COORDS")
     | _, _ => (st, "bad-op")
   | ["dump"] => withLoaded st fun w => (⟨st.raw, w⟩, showDump w.sheet)
   | ["spec", c, r] =>
